@@ -670,9 +670,8 @@ def trailing_newline_trees():
             f"SelectableIcon({t}, 1)",
         ]
         # (a lone line break packs to 0 columns x 2 rows: as a 'pack' column of a fixed Columns it is the hidden
-        # zero-width column of C01-KF2 -- pack(()) counts its 2 rows, render(()) hides it; reported, kept out of here)
-        if eval(t).strip():  # noqa: S307
-            out.append(f"Columns([('pack', {T}), ('pack', Text('|'))])")
+        # zero-width column of C01-KF2 -- pack(()) counts its 2 rows, render(()) hides it: matched by that known finding)
+        out.append(f"Columns([('pack', {T}), ('pack', Text('|'))])")
     return out
 
 
